@@ -192,6 +192,8 @@ class SpecMixin:
             if isinstance(m, Opt):
                 m = m.val
             if name == "map_key0":
+                if not _map_entries(st, m):
+                    raise SpecError(f"map_key0: map {m.ident} has no tracked entry in this state (maps: {[k for k in st.ghost if k.startswith('map:')]})")
                 yield st, _map_entries(st, m)[0][0]
                 return
             from .models import _map_find_alts
@@ -203,6 +205,13 @@ class SpecMixin:
                 self._exact = saved_exact
             for s1, idx in alts:
                 if idx is None:
+                    # a key the path never touched: defined only for maps whose initial content is a fixed function of
+                    # the key (models.make_keyed_map_handler(initial=...)), else the clause says nothing
+                    init = getattr(self.opaque_handlers.get(m.typ), "initial", None)
+                    if init is not None:
+                        p, v = init(self, s1, m, args[1])
+                        yield s1, (p if name == "map_has" else v)
+                        continue
                     yield s1, RaiseV(self.exc("SpecUndefined", "map_has/map_get on a key the path never touched"))
                     continue
                 k, p, v = _map_entries(s1, m)[idx]
@@ -395,6 +404,12 @@ class SpecMixin:
                     shape = sh
             if shape is None:
                 shape = self.field_shape(ob, fld)
+            curv = ob.f.get(fld)
+            if isinstance(curv, Opaque) and shape.kind == "keymap" and ("map:" + str(curv.ident)) in st.ghost:
+                from .models import map_havoc
+                nm = self.fresh(f"{c.short}.{path}")
+                st = map_havoc(self, st, curv, lambda s0: maker.make(s0, shape.value, self.fresh(nm + ".value")))
+                continue
             st, v = maker.make(st, shape, self.fresh(f"{c.short}.{path}"))
             st = st.write_field(cur, fld, v)
         return st
